@@ -376,16 +376,16 @@ func run(spec *Spec, tier, replay string, keep, buildOnly bool) int {
 
 	// evidence
 	cov := map[string]any{
-		"evaluations":         m.Evaluations,
-		"distinct_nontrivial": m.Distinct,
-		"rule":                m.Rule,
-		"samples":             m.Samples,
-		"exhaustive":          m.Exhaustive,
-		"bounds":              m.Bounds,
-		"counters":            m.Counters,
-		"notes":               m.Notes,
-		"shards":              shards,
-		"known_findings_hit":  knownHit,
+		"evaluations":           m.Evaluations,
+		"distinct_nontrivial":   m.Distinct,
+		"rule":                  m.Rule,
+		"samples":               m.Samples,
+		"exhaustive":            m.Exhaustive,
+		"bounds":                m.Bounds,
+		"counters":              m.Counters,
+		"notes":                 m.Notes,
+		"shards":                shards,
+		"known_findings_hit":    knownHit,
 		"unconfirmed_on_replay": unconfirmed,
 	}
 	if spec.Level == "model_checking" {
